@@ -455,12 +455,14 @@ def r18_10(ctx):
     repo = ctx.repo
     v = repo.func(f"{MOD}:validate_file")
     ctx.analysed(v.qual)
-    tuples = [n for n in ast.walk(v.node) if isinstance(n, (ast.Tuple, ast.List)) and any(isinstance(e, ast.Call) and ast.unparse(e.func) == "IndentAndNameChecker" for e in n.elts)]
+    def _cls(e):  # `Checker(path)` or the bare class in a table of classes
+        return ast.unparse(e.func) if isinstance(e, ast.Call) else (e.id if isinstance(e, ast.Name) else None)
+    tuples = [n for n in ast.walk(v.node) if isinstance(n, (ast.Tuple, ast.List)) and any(_cls(e) == "IndentAndNameChecker" for e in n.elts)]
     construct = "validate_file/the stateful indentation checker sees every line first"
     if not tuples:
         ctx.bad(construct, "IndentAndNameChecker is no longer part of the checker chain", v.loc())
     else:
-        names = [ast.unparse(e.func) for e in tuples[0].elts if isinstance(e, ast.Call)]
+        names = [_cls(e) for e in tuples[0].elts if _cls(e)]
         (ctx.ok(construct, v.loc(tuples[0]), chain=names) if names and names[0] == "IndentAndNameChecker" else
          ctx.bad(construct, f"the chain is {names}: a line that trips an earlier checker never reaches the indentation checker, whose level and prefix stacks then miss "
                  "that line (an `endmenu` with a trailing blank) - `Prefix stack should be empty` at the end, the corrected file is never installed", v.loc(tuples[0])))
